@@ -118,6 +118,27 @@ def _run_cloud(rec, dreye, name, P, family, tier, seed, uniform=True):
             if bad:
                 _v(rec, bad[0], dict(sig, what=bad[1][:40]), bad[1], case, observed=np.asarray(X)[:3],
                    script="import numpy as np, dreye\nprint(dreye.sample_in_hull(np.array(%r), %d, seed=%d, engine=%r))\n" % (P.tolist(), n_, sd, engine))
+    # ---- engine given as a QMCEngine instance / seed given as a Generator (both documented)
+    from scipy.stats import qmc
+
+    for label, mk in (("Halton-instance", lambda: dict(engine=qmc.Halton(d + 1, seed=3), seed=3)), ("Generator-seed", lambda: dict(seed=np.random.default_rng(11)))):
+        rec.path()
+        rec.trans(2)
+        sig = dict(family=family, api="dreye.sample_in_hull", engine=label, l1="none")
+        case = dict(cloud=name, variant=label)
+        try:
+            X = dreye.sample_in_hull(P, 64, **mk())
+            X2 = dreye.sample_in_hull(P, 64, **mk())
+        except Exception as e:  # noqa
+            _v(rec, "a", dict(sig, **exc_sig(e)), "sample_in_hull raised %r" % (e,), case)
+            continue
+        rec.distinct((name, label))
+        bad = _check_samples(rec, sig, case, X, 64, d, lambda Y: O.hull_margin(P, Y), ext)
+        if bad is None and not np.array_equal(np.asarray(X), np.asarray(X2)):
+            bad = ("d", "two calls with identically seeded %s return different samples" % label)
+        rec.outcome("instance/%s" % ("ok" if bad is None else "bad"))
+        if bad:
+            _v(rec, bad[0], dict(sig, what=bad[1][:40]), bad[1], case, observed=np.asarray(X)[:3])
     # ---- uniformity (default engine)
     if not uniform:
         return
